@@ -107,6 +107,10 @@ def ensure_facts(config="default", repo=None, force=False, target_dir=None):
         d = os.path.join(CACHE, "facts", "%s-%s" % (th, config))
         done = os.path.join(d, "DONE")
         if os.path.exists(done) and not force:
+            try:
+                os.utime(d, None)       # least-recently-USED eviction: a hit refreshes the entry
+            except OSError:
+                pass
             return d, th
         tmp = d + ".tmp.%d" % os.getpid()
         shutil.rmtree(tmp, ignore_errors=True)
@@ -122,7 +126,7 @@ def ensure_facts(config="default", repo=None, force=False, target_dir=None):
             json.dump({"tree_hash": th, "config": config, "extract_s": round(time.time() - t0, 2)}, fh)
         shutil.rmtree(d, ignore_errors=True)
         os.rename(tmp, d)
-        _gc(os.path.join(CACHE, "facts"), keep=48)
+        _gc(os.path.join(CACHE, "facts"), keep=120)
         return d, th
     finally:
         fcntl.flock(lock, fcntl.LOCK_UN)
